@@ -22,12 +22,13 @@ LEAN_MODULES = ['VotelibProofs.Props.C07']
 GEN_MODULES = ['Divisor']
 REQUIRED = ['bipropCheck_sound', 'bipropCheckL_sound', 'infeasible_sound', 'infeasibleCheckL_sound',
             'isRounding_zero_votes', 'd_hondt_signpost', 'sainte_lague_signpost',
-            'augment_preserves_columns', 'applyPath_row_change', 'update_preserves_inv',
-            'transfer_cell_up', 'transfer_cell_down', 'step_done_rows', 'run_ok_rows', 'run_preserves_columns',
-            'run_ok_sound']
+            'augment_preserves_columns', 'transfer_cell_up', 'transfer_cell_down', 'transfer_preserves_inv',
+            'update_preserves_inv', 'step_done_rows', 'run_ok_rows', 'run_preserves_columns', 'run_ok_sound',
+            'evaluate_ok_sound']
 REQUIRED_COUNTERS = ['transfer_step', 'coef_update', 'zero_cell', 'refusal', 'tie_in_initial_allocation',
                      'zero_vote_party', 'seats_total', 'seats_dict', 'seats_custom', 'd_hondt', 'sainte_lague',
-                     'cert_checked_by_lean', 'cut_checked_by_lean', 'large_counts', 'str_keys']
+                     'cert_checked_by_lean', 'cut_checked_by_lean', 'large_counts', 'str_keys', 'init_ok_confirmed',
+                     'own_multipliers_certify']
 RULE = ('2-6 districts x 2-6 parties, non-negative integer votes (tiny 0-3, small, mid, up to 10^25; zero cells; zero-vote '
         'parties), D\'Hondt and Sainte-Lague, seats as a total (1..~5m), explicit per-district dict, or custom apportioner '
         '(LargestRemainder hare, HighestAverages of the other rule, uniform int, dict apportioner); only instances whose two '
@@ -45,9 +46,11 @@ NOT_VERIFIED = [
     'SIGNPOST_QS lookup: q is read from the real class attribute and passed to the model',
     'sparse district dicts (a party key missing instead of 0) are not modelled (open finding: KeyError)',
 ]
-UNPROVED = ['transfer_preserves_inv (a whole transfer path keeps every cell between its signposts: proved per cell '
-            '(transfer_cell_up/down); the path-level statement needs distinctness of the path cells, assumed as the decidable '
-            'hypothesis PathOk in run_ok_sound and confirmed by the driver on every generated case)']
+UNPROVED = ['total correctness of tie-and-transfer (termination / a feasible instance is never refused): not proved; every '
+            'refusal is certified infeasible by the verified cut checker instead',
+            'the initial state satisfies the loop invariant for every tie-free input (needs the optimality theorem of '
+            'HighestAverages, C01): taken as the decidable hypothesis stateOk in evaluate_ok_sound and confirmed by the driver '
+            'on every generated case (counter init_ok_confirmed)']
 EXHAUSTIVE = {'thorough': True}
 TECHNIQUE = ('verified certificate checkers in Lean 4 (soundness proved for matrices of any size) applied to every output of the '
              'real evaluator, exact certificates computed by the harness; plus a fuelled Lean port of tie-and-transfer with '
@@ -491,6 +494,13 @@ def oracle(case, obs):
         if not ok:
             raise RuntimeError(f'multipliers found by Bellman-Ford rejected by the verified checker: {strip_case(case)}')
         _tag(case, 'cert_checked_by_lean' if how == 'lean' else 'checked_by_python_twin_only')
+        # the evaluator's own final multipliers are a certificate too (the loop invariant, observed on the real code)
+        try:
+            own = lean_biprop_cert(q, V, row, col, X, [Fraction(r) for r in obs['dc']], [Fraction(g) for g in obs['pc']])[0]
+        except (KeyError, ValueError):
+            own = None
+        if own is not None:
+            _tag(case, 'own_multipliers_certify' if own else 'own_multipliers_do_not_certify')
     return out
 
 
@@ -518,6 +528,14 @@ def model_line(case):
 
 
 def compare(case, iobs, mobs):
+    if isinstance(mobs, dict) and 'votes_ok' in mobs:
+        # the decidable hypotheses of evaluate_ok_sound must hold on real inputs (else the theorem is vacuous there)
+        if mobs.get('votes_ok') is not True:
+            return f'hypothesis votesOk fails on a generated input: {json.dumps(mobs)[:200]}'
+        if mobs.get('init_ok') is False:
+            return 'hypothesis stateOk fails for the initial state: the initial solution is not consistent with its multipliers'
+        if mobs.get('init_ok') is True:
+            _tag(case, 'init_ok_confirmed')
     if 'err' in iobs:
         if isinstance(mobs, dict) and mobs.get('err') == iobs['err']:
             return None
@@ -665,7 +683,9 @@ def _random_case(rng):
                 V[i][(j + 1) % n] = 1 + rng.randint(0, 5)
     divisor = rng.choice(DIVS)
     keys = 'str' if rng.random() < 0.15 else 'int'
-    return _mk(rng, V, divisor, _seat_spec(rng, V, divisor), keys=keys)
+    sparse = rng.random() < 0.06 and any(v == 0 for r in V for v in r)
+    return _mk(rng, V, divisor, _seat_spec(rng, V, divisor), keys=keys, sparse=sparse,
+               tags=['sparse_dict'] if sparse else [])
 
 
 def _directed_refusal(rng):
@@ -719,8 +739,8 @@ def _exhaustive():
 
 
 def _gen(rng, tier):
-    N = 900 if tier == 'quick' else 30000
-    D = 40 if tier == 'quick' else 800
+    N = 3000 if tier == 'quick' else 30000
+    D = 60 if tier == 'quick' else 800
     k = 0
     tries = 0
     while k < N and tries < 20 * N:
